@@ -563,7 +563,14 @@ func c19Close(c *Ctx) {
 							if call, ok := win.(*ssa.Call); ok {
 								if f := an.CalleeObj(&call.Call); f != nil && f.Pkg() != nil && f.Pkg().Path() == "sync/atomic" &&
 									(strings.HasPrefix(f.Name(), "Swap") || strings.HasPrefix(f.Name(), "CompareAndSwap")) {
-									if an.InstrDominates(call, deferInstr) {
+									// the value swapped in marks "watching": it must differ from the zero the guard tests for
+									marks := false
+									if args := call.Call.Args; len(args) >= 2 {
+										if k, isC := args[len(args)-1].(*ssa.Const); isC && k.Value != nil && constant.Sign(k.Value) != 0 {
+											marks = true
+										}
+									}
+									if marks && an.InstrDominates(call, deferInstr) {
 										// the branch on its result leads to a panic on one side
 										for _, r := range *call.Referrers() {
 											if bo, ok := r.(*ssa.BinOp); ok {
